@@ -62,6 +62,7 @@ type Frame struct {
 	oldSt   *State
 	bind    map[string]Value // parameter names -> entry values (function under verification)
 	modLocs []modLoc
+	ifOrd   map[*ast.IfStmt]int
 }
 
 type Exec struct {
@@ -72,6 +73,7 @@ type Exec struct {
 	spec     int
 	oldSt    *State
 	siteSeen map[string]int
+	conts    [][]ast.Stmt
 	nInline  int
 	pendingLabel string
 	assumed  map[string]bool // assumptions used (models, pure externals, ...)
@@ -137,8 +139,8 @@ func (ex *Exec) check(st *State, goal *Term, kind string, n ast.Node, site strin
 	}
 	// a conjunction is discharged conjunct by conjunct (smaller, more stable queries)
 	parts := []*Term{goal}
-	if goal.Op == "and" && !strings.HasPrefix(kind, "safety") {
-		parts = goal.Args
+	if !strings.HasPrefix(kind, "safety") {
+		parts = splitGoal(goal)
 	}
 	facts := append([]*Term(nil), st.pc...)
 	for k, g := range parts {
@@ -176,12 +178,151 @@ func (st *State) become(o *State) {
 // statements
 
 func (ex *Exec) execBlock(stmts []ast.Stmt, st *State) {
-	for _, s := range stmts {
+	for i, s := range stmts {
 		if st.dead {
 			return
 		}
+		if ex.splitActive() {
+			switch x := s.(type) {
+			case *ast.IfStmt:
+				if ex.splitOrd(x) {
+					ex.splitIf(x, stmts[i+1:], st)
+					return
+				}
+				// not split itself, but a nested if may be: its continuation is the rest of this block
+				ex.pushCont(stmts[i+1:])
+				ex.execStmt(s, st)
+				ex.popCont()
+				continue
+			case *ast.BlockStmt:
+				ex.pushCont(stmts[i+1:])
+				ex.execBlock(x.List, st)
+				ex.popCont()
+				continue
+			}
+		}
 		ex.execStmt(s, st)
 	}
+}
+
+// ---- path splitting (//@ split): selected if statements of the function under verification fork the execution;
+// every fork runs the rest of the function on its own (continuation stack), so that postconditions and invariants are
+// checked per path instead of over a merged state ----
+
+func (ex *Exec) splitActive() bool {
+	if len(ex.frames) != 1 {
+		return false
+	}
+	f := ex.frames[0]
+	return f.fn != nil && f.fn.Con != nil && len(f.fn.Con.Split) > 0 && !f.lit && len(f.loops) == 0
+}
+
+func (ex *Exec) splitOrd(s *ast.IfStmt) bool {
+	f := ex.frames[0]
+	if f.ifOrd == nil {
+		f.ifOrd = map[*ast.IfStmt]int{}
+		n := 0
+		var walk func(x ast.Node, inLoop bool)
+		walk = func(x ast.Node, inLoop bool) {
+			ast.Inspect(x, func(y ast.Node) bool {
+				switch z := y.(type) {
+				case *ast.FuncLit:
+					return false
+				case *ast.ForStmt:
+					if y != x {
+						walk(z.Body, true)
+						return false
+					}
+				case *ast.RangeStmt:
+					if y != x {
+						walk(z.Body, true)
+						return false
+					}
+				case *ast.SwitchStmt, *ast.TypeSwitchStmt, *ast.SelectStmt:
+					if y != x {
+						return false
+					}
+				case *ast.IfStmt:
+					if !inLoop {
+						f.ifOrd[z] = n
+						n++
+					}
+				}
+				return true
+			})
+		}
+		walk(f.fn.Decl.Body, false)
+	}
+	ord, ok := f.ifOrd[s]
+	return ok && f.fn.Con.Split[ord]
+}
+
+func (ex *Exec) pushCont(rest []ast.Stmt) {
+	ex.conts = append(ex.conts[:len(ex.conts):len(ex.conts)], rest)
+}
+
+func (ex *Exec) popCont() { ex.conts = ex.conts[:len(ex.conts)-1] }
+
+// runConts executes the pending continuations (innermost first) on st until the function returns.
+func (ex *Exec) runConts(st *State) {
+	saved := ex.conts
+	for len(ex.conts) > 0 && !st.dead {
+		k := ex.conts[len(ex.conts)-1]
+		ex.conts = ex.conts[:len(ex.conts)-1]
+		ex.execBlock(k, st)
+	}
+	if !st.dead {
+		ex.implicitReturn(st)
+	}
+	ex.conts = saved
+}
+
+func (ex *Exec) splitIf(s *ast.IfStmt, rest []ast.Stmt, st *State) {
+	if s.Init != nil {
+		ex.execStmt(s.Init, st)
+	}
+	c := ex.eval(s.Cond, st).scalar()
+	a := st.clone()
+	a.decide(c)
+	b := st.clone()
+	b.decide(mkNot(c))
+	ex.pushCont(rest)
+	saved := ex.conts
+	ex.execBlock(s.Body.List, a)
+	if !a.dead {
+		ex.runConts(a)
+	}
+	ex.conts = saved
+	if s.Else != nil {
+		switch e := s.Else.(type) {
+		case *ast.BlockStmt:
+			ex.execBlock(e.List, b)
+		default:
+			ex.execBlock([]ast.Stmt{e}, b)
+		}
+	}
+	if !b.dead {
+		ex.runConts(b)
+	}
+	ex.conts = saved
+	ex.popCont()
+	st.dead = true
+}
+
+// implicitReturn: falling off the end of the function under verification.
+func (ex *Exec) implicitReturn(st *State) {
+	f0 := ex.frames[0]
+	var vals []Value
+	if f0.sig.Results().Len() > 0 {
+		if f0.results == nil {
+			st.dead = true
+			return
+		}
+		for _, o := range f0.results {
+			vals = append(vals, st.env[o])
+		}
+	}
+	ex.doReturn(st, vals)
 }
 
 func (ex *Exec) execStmt(s ast.Stmt, st *State) {
